@@ -148,7 +148,7 @@ fn main() {
         }
     }
     let mut sink = Sink::new(&out, only.clone());
-    let k = if thorough { 20 } else { 1 };
+    let k = if thorough { 4 } else { 1 };
 
     time::stream_since_decode(seed, thorough, &mut sink);
     time::stream_time(seed, 160 * k, &mut sink);
